@@ -859,7 +859,8 @@ def format_undocumented(obj: model.Documentable) -> Tag:
     sub_objects_total_count: DefaultDict[model.DocumentableKind, int]  = defaultdict(int)
     for sub_ob in obj.contents.values():
         kind = sub_ob.kind
-        if kind is not None:
+        # Hidden members are not rendered, so they don't count.
+        if kind is not None and sub_ob.isVisible:
             sub_objects_total_count[kind] += 1
             if sub_ob.docstring is not None:
                 sub_objects_with_docstring_count[kind] += 1
